@@ -219,6 +219,16 @@ func (w *txWorld) checkC06(tr *dsTruth) {
 		}
 		if w.e.node.memPool.TransactionExists(&loser.id) {
 			w.find("C06", "C06/loser-still-tracked/"+shape, fmt.Sprintf("%s is still in double-spend tracking after its conflict was confirmed", loser.name))
+		} else {
+			// dropped means dropped from the outpoint index too (all of its outpoints, not only
+			// the contested one): a later spender of one of them has no conflict
+			for _, spenders := range w.e.node.memPool.VerifSnapshot().Inputs {
+				for _, sp := range spenders {
+					if sp == loser.id {
+						w.find("C06", "C06/loser-still-indexed/"+shape, fmt.Sprintf("%s is gone from double-spend tracking but still listed as the spender of an outpoint (%d inputs)", loser.name, len(loser.spends)))
+					}
+				}
+			}
 		}
 	}
 	// no cancel for transactions that do not conflict with a confirmed one
@@ -241,37 +251,40 @@ func runDoubleSpend(t *testing.T, prop string, rep *verifkit.Report, n int) {
 		if !verifkit.Mine(ci) {
 			continue
 		}
-		r := verifkit.Rand("doublespend", ci)
-		w, tr, fp, err := c05Scenario(r)
-		if err != nil {
-			rep.Inconc(ci, err.Error())
-			continue
-		}
-		w.checkC05(tr)
-		w.checkC06(tr)
-		w.checkC04(2)
-		for _, f := range w.finds {
-			if f.prop != prop {
-				rep.Event("other_property_findings:"+f.sig, 1)
-				continue
+		ci := ci
+		verifkit.RunCase(rep, ci, func() {
+			r := verifkit.Rand("doublespend", ci)
+			w, tr, fp, err := c05Scenario(r)
+			if err != nil {
+				rep.Inconc(ci, err.Error())
+				return
 			}
-			rep.Finding(ci, f.sig, f.detail, w.witness())
-		}
-		conf, canc := 0, len(tr.cancelDue)
-		for _, m := range tr.conflicted {
-			conf += len(m)
-		}
-		rep.Event("histories", 1)
-		rep.Event("conflict_pairs", int64(conf/2))
-		rep.Event("confirmed_double_spends", int64(canc))
-		nt := conf > 0
-		if prop == "C06" {
-			nt = canc > 0
-		}
-		rep.Case(fp, nt)
-		if rep.WantSample() && nt {
-			rep.Sample(w.witness())
-		}
+			w.checkC05(tr)
+			w.checkC06(tr)
+			w.checkC04(2)
+			for _, f := range w.finds {
+				if f.prop != prop {
+					rep.Event("other_property_findings:"+f.sig, 1)
+					continue
+				}
+				rep.Finding(ci, f.sig, f.detail, w.witness())
+			}
+			conf, canc := 0, len(tr.cancelDue)
+			for _, m := range tr.conflicted {
+				conf += len(m)
+			}
+			rep.Event("histories", 1)
+			rep.Event("conflict_pairs", int64(conf/2))
+			rep.Event("confirmed_double_spends", int64(canc))
+			nt := conf > 0
+			if prop == "C06" {
+				nt = canc > 0
+			}
+			rep.Case(fp, nt)
+			if rep.WantSample() && nt {
+				rep.Sample(w.witness())
+			}
+		})
 	}
 }
 
